@@ -91,8 +91,6 @@ class SThread:
             if self.killed:
                 raise SimKilled()
             self.state = "running"
-            if s.lines is not None and self.proc.pid == PARENT_PID:
-                sys.settrace(_line_tracer(s, self))
             self.fn()
             self.exit_code = 0
         except (SimKilled, SimAbort):
@@ -202,56 +200,64 @@ class KSem:
 
 
 # ------------------------------------------------------------------------------------------
-_keeper = None
+_MON_TOOL = 4
+_mon_on = False
+_mon_seen = set()
 
 
-def _keep_tracing_on():
-    """CPython >= 3.12 (re)instruments code objects whenever the number of tracing threads
-    moves between 0 and 1, and a frame that is re-instrumented while it runs reports its
-    current line a second time: the sequence of line events would depend on the history of the
-    process.  One parked thread that traces for ever keeps the instrumentation constant."""
-    global _keeper
-    if _keeper is not None and _keeper.is_alive():
+def _instrument(code):
+    """LINE events (sys.monitoring, CPython >= 3.12) for one code object and all nested ones.
+    Local events of a private tool id are set once per code object and never changed, so the
+    sequence of events of an execution does not depend on the history of the process (the
+    legacy sys.settrace layer re-instruments frames and repeats lines depending on it)."""
+    if id(code) in _mon_seen:
         return
-    ready = _thread.allocate_lock()
-    ready.acquire()
-
-    def park():
-        sys.settrace(lambda *a: None)
-        ready.release()
-        lk = _thread.allocate_lock()
-        lk.acquire()
-        lk.acquire()          # for ever
-    _keeper = _rt.Thread(target=park, daemon=True, name="vf-trace-keeper")
-    _keeper.start()
-    ready.acquire()
+    _mon_seen.add(id(code))
+    ev = sys.monitoring.events
+    sys.monitoring.set_local_events(_MON_TOOL, code, ev.LINE | ev.PY_START | ev.PY_RESUME)
+    for c in code.co_consts:
+        if hasattr(c, "co_code"):
+            _instrument(c)
 
 
-def _line_tracer(s, t):
-    funcs = s.lines
+def _on_line(code, lineno):
+    s = S
+    if s is None or s.lines is None or not s.active or s.aborting:
+        return
+    t = s.cur
+    if t is None or t.real.ident != _thread.get_ident() or t.proc.pid != PARENT_PID \
+            or t.killed or t.state != "running":
+        return
+    if s.lines != "*" and code.co_name not in s.lines:
+        return
+    # whether a line is reported again when control comes back to it from a call depends on
+    # how the interpreter has specialised the calling instruction so far (process history):
+    # consecutive reports of one line within one frame count once
+    fid = id(sys._getframe(1))
+    if s.line_last.get(fid) == lineno:
+        return
+    s.line_last[fid] = lineno
+    s.point(label=f"L:{code.co_name}:{lineno}")
 
-    last = {}
 
-    def local(frame, event, arg):
-        if event == "return":
-            last.pop(id(frame), None)
-        elif event == "line":
-            # the interpreter may or may not report a line again when control comes back to
-            # it from a call (it depends on the instrumentation history of the code object):
-            # consecutive reports of one line within one frame count once
-            if last.get(id(frame)) != frame.f_lineno:
-                last[id(frame)] = frame.f_lineno
-                if s.active and not s.aborting and not t.killed and s.cur is t \
-                        and t.state == "running":
-                    s.point(label=f"L:{frame.f_code.co_name}:{frame.f_lineno}")
-        return local
+def _on_start(code, offset):
+    s = S
+    if s is not None and s.lines is not None:
+        s.line_last.pop(id(sys._getframe(1)), None)
 
-    def glob(frame, event, arg):
-        co = frame.f_code
-        if "/loky/" in co.co_filename and (funcs == "*" or co.co_name in funcs):
-            return local
-        return None
-    return glob
+
+def enable_line_mode(code_objects):
+    global _mon_on
+    if not _mon_on:
+        sys.monitoring.use_tool_id(_MON_TOOL, "vf-line-mode")
+        sys.monitoring.register_callback(_MON_TOOL, sys.monitoring.events.LINE, _on_line)
+        sys.monitoring.register_callback(_MON_TOOL, sys.monitoring.events.PY_START, _on_start)
+        sys.monitoring.register_callback(_MON_TOOL, sys.monitoring.events.PY_RESUME, _on_start)
+        _mon_on = True
+    for c in code_objects:
+        _instrument(c)
+
+
 
 
 class Sched:
@@ -265,8 +271,10 @@ class Sched:
         # parent-process thread may be run instead (threads of one process only interleave
         # with each other at this granularity; across processes only kernel operations matter)
         self.lines = (None if not lines else ("*" if lines == "*" else frozenset(lines)))
+        self.line_last = {}
         if self.lines is not None:
-            _keep_tracing_on()
+            from . import world as _w
+            enable_line_mode([c for p, c in _w._code_cache.items() if "/loky/" in p])
         self.procs = {}
         self.pipes = []
         self.sems = []
